@@ -58,7 +58,20 @@ func (x *Exec) goStmt(fr *frame, i *ssa.Go, st *State, r string) {
 	st.Ghost["effects"] = x.vc.S.def("g_effects", ic(add(ghost(st, "effects"), "1"))).T
 }
 
+// callCommon: the call proper, then the environment-failure bookkeeping of the streams plug-in
+// (a listed callee that returns a non-nil error raises the ghost flag envfail).
 func (x *Exec) callCommon(fr *frame, ins ssa.CallInstruction, c *ssa.CallCommon, st *State, r string, isDefer bool) (Val, string) {
+	res, r2 := x.callCommon0(fr, ins, c, st, r, isDefer)
+	if x.envCalls != nil {
+		rt := c.Signature().Results()
+		if name := x.calleeName(c); x.envCalls[name] && rt.Len() > 0 && isErrType(rt.At(rt.Len()-1).Type()) && len(res) >= 3 {
+			raise(x, st, "envfail", not(eq(res[len(res)-3].T, "0")))
+		}
+	}
+	return res, r2
+}
+
+func (x *Exec) callCommon0(fr *frame, ins ssa.CallInstruction, c *ssa.CallCommon, st *State, r string, isDefer bool) (Val, string) {
 	name := x.calleeName(c)
 	var args []Val
 	var argVals []ssa.Value
@@ -389,12 +402,23 @@ func (x *Exec) appendBuiltin(c *ssa.CallCommon, args []Val, st *State, r string)
 // ---- site assertions ------------------------------------------------------------
 
 func (x *Exec) siteAsserts(fr *frame, cs *CallSite, st *State, r string) {
+	covered := false
 	for k, sa := range fr.c.Asserts {
 		if !calleeMatch(sa.Callee, cs.Callee) {
 			continue
 		}
 		if sa.Ord != 0 && sa.Ord != cs.Ord {
 			continue
+		}
+		if x.assertHits == nil {
+			x.assertHits = map[int]int{}
+		}
+		x.assertHits[k]++
+		if !covered && sa.Cl.Text != "false" {
+			// vacuity guard: the site must be reachable under the hypotheses collected so far
+			// (an assertion at a site the model cannot reach proves nothing)
+			covered = true
+			x.vc.cover(fmt.Sprintf("%s#cover:site:%s#%d", x.eng.fnKey(fr.fn), sa.Callee, cs.Ord), r, x.eng.pos(cs.Pos))
 		}
 		env := x.specEnv(fr, st, cs.Instr.Block(), 0)
 		env.site = cs
@@ -464,8 +488,11 @@ func (x *Exec) callContract(fr *frame, cs *CallSite, fn *ssa.Function, ct *Contr
 	}
 	resT := fn.Signature.Results()
 	res := x.havocVal(resT, st, r, "res_"+fn.Name())
-	// results that are fresh objects are well typed in the new memory
+	// results that are fresh objects are well typed in the new memory (what they refer to may
+	// itself have been allocated by the callee)
 	{
+		x.refBound = st.Alloc
+		defer func() { x.refBound = "" }()
 		off := 0
 		for j := 0; j < resT.Len(); j++ {
 			rt := resT.At(j).Type()
@@ -477,7 +504,7 @@ func (x *Exec) callContract(fr *frame, cs *CallSite, fn *ssa.Function, ct *Contr
 			case *types.Slice:
 				x.sliceElemFacts(base, u.Elem(), v[0].T, v[1].T, v[2].T, fresh, 1)
 			case *types.Pointer:
-				x.validFacts(base, u.Elem(), v[0].T, v[1].T, fresh, 1)
+				x.validFacts(base, u.Elem(), v[0].T, v[1].T, fresh, 2)
 			}
 		}
 	}
